@@ -197,38 +197,48 @@ def rule_policy_tab(ctx, tu, py):
               "accepted set differs from the documented one")
     for name in ("engineexport_initialize_grid", "engineexport_initialize_graph"):
         g = tu.fn(name)
-        codes = {}
-        for n in walk(g.body):
-            if n.get("kind") == "IfStmt":
-                p = cxfe.raw_kids(n)
-                cp = call_parts(p[0])
-                if cp and cp[0] == "CompareStr" and name_of(strip(cp[2][0], casts=True)) == "sampling_policy":
-                    lit = strip(cp[2][1], casts=True).get("value", "").strip('"')
-                    for s in cxa.all_stores(p[1]) if lit else []:
-                        if s.base and s.base[1].startswith("sampling_policy_code"):
-                            codes[lit] = cxa.const_int(s.rhs)
-        if not codes:
-            # the same mapping written as a constant table scanned by index: names[p] matches -> code = p
+        def policy_codes(body, subj, returns):
+            """policy name -> code, from `if(CompareStr(subj, X)) <code := v>` where X is a literal or an entry names[p] of a
+            constant table and v a literal or that p; the code is stored into sampling_policy_code, or returned (helper)"""
+            codes_ = {}
             tabs = {}
-            for n in walk(g.body):
+            for n in walk(body):
                 if n.get("kind") == "VarDecl" and "char" in n.get("type", {}).get("qualType", "") and kids(n):
                     il = strip(kids(n)[-1])
                     lits = [strip(x, casts=True).get("value", "").strip('"') for x in kids(il)] if il.get("kind") == "InitListExpr" else []
                     if lits and all(lits):
                         tabs[uname(n)] = lits
+            for n in walk(body):
+                if n.get("kind") != "IfStmt":
+                    continue
+                p = cxfe.raw_kids(n)
+                cp = call_parts(p[0])
+                if not (cp and cp[0] == "CompareStr" and name_of(strip(cp[2][0], casts=True)) == subj):
+                    continue
+                if returns:
+                    vals = [kids(x)[0] for x in walk(p[1]) if x.get("kind") == "ReturnStmt" and kids(x)]
+                else:
+                    vals = [s_.rhs for s_ in cxa.all_stores(p[1]) if s_.base and s_.base[1].startswith("sampling_policy_code")
+                            and s_.rhs is not None]
+                lit = strip(cp[2][1], casts=True).get("value", "").strip('"')
+                sub = cxfe.subscript(cp[2][1])
+                for v in vals:
+                    if lit:
+                        codes_[lit] = cxa.const_int(v)
+                    elif sub is not None and uname(strip(sub[0], casts=True)) in tabs and \
+                            uname(strip(v, casts=True)) == uname(strip(sub[1], casts=True)):
+                        for i_, l_ in enumerate(tabs[uname(strip(sub[0], casts=True))]):
+                            codes_[l_] = i_
+            return codes_
+        codes = policy_codes(g.body, "sampling_policy", False)
+        if not codes:
+            # the code comes from a helper called with the policy text: sampling_policy_code = H(sampling_policy)
             for n in walk(g.body):
-                if n.get("kind") == "IfStmt":
-                    p = cxfe.raw_kids(n)
-                    cp = call_parts(p[0])
-                    if cp and cp[0] == "CompareStr" and name_of(strip(cp[2][0], casts=True)) == "sampling_policy":
-                        sub = cxfe.subscript(cp[2][1])
-                        if sub is not None and uname(strip(sub[0], casts=True)) in tabs:
-                            idxv = uname(strip(sub[1], casts=True))
-                            for s in cxa.all_stores(p[1]):
-                                if s.base and s.base[1].startswith("sampling_policy_code") and s.rhs is not None and \
-                                        uname(strip(s.rhs, casts=True)) == idxv:
-                                    for i_, lit in enumerate(tabs[uname(strip(sub[0], casts=True))]):
-                                        codes[lit] = i_
+                if n.get("kind") == "VarDecl" and str(uname(n)).startswith("sampling_policy_code") and kids(n):
+                    cpi = call_parts(strip(kids(n)[-1], casts=True)) if strip(kids(n)[-1], casts=True).get("kind") == "CallExpr" else None
+                    if cpi and cpi[0] in tu.funcs and len(cpi[2]) == 1 and name_of(strip(cpi[2][0], casts=True)) == "sampling_policy":
+                        h_ = tu.funcs[cpi[0]]
+                        codes = policy_codes(h_.body, h_.param_names()[0], True)
         for pol, (code, handler) in POLICIES.items():
             ctx.check(codes.get(pol) == code, R, g.node, name, "\"%s\" -> code %s" % (pol, codes.get(pol)), "code %d" % code,
                       "policy \"%s\" is mapped to code %s, the switch expects %d" % (pol, codes.get(pol), code))
